@@ -8,6 +8,7 @@ counts, census before the scripted peers let go of their sockets)."""
 import os, re, subprocess
 from .. import core, wire
 
+os.environ.setdefault("VERIF_HANG_DETAIL", "1")      # HANG tokens then name the goroutines (state @ function)
 PROP = "C15"
 MODULE = "GmqttVerif.Properties.C15"
 LOCK_MODULE = "GmqttVerif.Properties.C15LockOrder"
@@ -165,19 +166,22 @@ def canon(ops, out):
 
 # ---------------------------------------------------------------- the property, re-checked on what the broker reported
 
-STUCK_HINT = {
-    "read:chan_send": "[F37] readLoop is blocked for ever on `client.in <- packet`: client.in (8 slots) is full and nobody receives "
-                      "any more, so serve() never gets past readWg.Wait() and the client is never unregistered",
-    "sync.Mutex.Lock": "[F47] setError is blocked on errOnce: the goroutine inside errOnce.Do is itself blocked sending the DISCONNECT "
-                       "on a full client.out",
-    "serve:chan_send": "[F48] connectWithTimeOut is blocked on a plain send to client.out (AUTH(continue) / CONNACK(error)): client.out is "
-                       "full, writeLoop is stuck on or gone from a peer that does not read, and `connected` is never closed",
-}
+F37_MSG = ("[F37] readLoop is blocked for ever on `client.in <- packet`: client.in (8 slots) is full and nobody receives any more, so "
+           "serve() never gets past readWg.Wait() and the client is never unregistered")
+F47_MSG = ("[F47] setError is blocked on errOnce: the goroutine inside errOnce.Do is itself blocked sending the DISCONNECT on a full "
+           "client.out")
+F48_MSG = ("[F48] connectWithTimeOut is blocked on a plain send to client.out (AUTH(continue) / CONNACK(error)): client.out is full, "
+           "writeLoop is stuck on or gone from a peer that does not read, and `connected` is never closed")
 
-def _stuck_msg(stuck):
-    for k, v in STUCK_HINT.items():
-        if k in stuck:
-            return v
+def _stuck_msg(text):
+    """text: the `stuck=` field of a census, or a HANG token with its detail (VERIF_HANG_DETAIL: state @ function of every
+    goroutine that is not parked in an accepted wait)"""
+    if "read:chan_send" in text or ("chan_send" in text and "readLoop" in text):
+        return F37_MSG
+    if "sync.Mutex.Lock" in text:
+        return F47_MSG
+    if "serve:chan_send" in text or ("chan_send" in text and ("connectWithTimeOut" in text or "sendErrConnack" in text)):
+        return F48_MSG
     return "a broker goroutine is parked where nothing will wake it"
 
 class Ref:
@@ -333,7 +337,7 @@ class LifecycleStream(core.Stream):
         # HANG with a goroutine parked in `chan send` / on a mutex in the census is a confirmed wedge, not a slow machine:
         # rename the token so that core.correspond does not re-run the case (serially, twice) before believing it
         for i, o in enumerate(outs):
-            if any((m := CENSUS.search(l)) and m.group(6) != "-" for l in o):
+            if any(((m := CENSUS.search(l)) and m.group(6) != "-") or re.search(r"HANG:\S*(chan_send|Mutex)", l) for l in o):
                 outs[i] = [re.sub(r"\bHANG", "WEDGED", l) for l in o]
         if len(cases) > 1:
             for i, (c, o) in enumerate(zip(cases, outs)):
